@@ -254,7 +254,7 @@ def run(ctx: Ctx):
             meta.append({"cls": kind.name, "seq": i, "step": j, "o": o})
     ctx.sample({"trace_event": events[5]})
     for idx, clause, known in ctx.validate_trace("Trace_CaselessMap", events, cfg_text(spec="Spec"),
-                                                 chunk=10000, timeout=3000):
+                                                 chunk=10000, timeout=3000, boundary=lambda e: e["o"]["op"] == "reset"):
         ctx.fail(clause, meta[idx], [events[idx]["res"], events[idx]["post"]], None)
     ctx.evaluations += len(events)
 
